@@ -8,8 +8,16 @@ doc = {
   "tail": [comment, ...],   full-line comments after the last key
   "items": [ {"key": str, "quote": "" | "'" | '"', "style": "block" | "flow" | "literal-keep" (str value, last item only), "value": json value,
               "before": [comment, ...], "trail": comment | None,
-              "inner": [[after_entry_index, "indented" | "col0", comment], ...]} ]
+              "inner": [[after_entry_index, "indented" | "col0", comment], ...],
+              "anchor": name          the value carries the anchor `&name` (key: &name {...})
+              "merge_from": name      (mapping value) the section's first entry is the merge key `<<: *name`
+             }
+             | {"key": k, "style": "alias", "ref": name}            key: *name       (value = the anchored value)
+             | {"key": "<<", "style": "merge", "refs": [name, ...], "as_list": bool}   top-level merge key  <<: *a  /  <<: [*a, *b]
+           ]
 }
+Anchors must be defined by an earlier item. Merge keys follow the YAML 1.1 merge-key type as yaml.safe_load applies it:
+explicit keys of the mapping win over merged-in ones, an earlier alias of a list wins over a later one.
 A comment is the text after `#` (may contain newlines: one comment line per piece).
 `render(doc) -> (text, expected_mapping, comment_lines)`; the caller self-validates text against the mapping.
 """
@@ -76,6 +84,33 @@ def _block(v, ind: int, step: int) -> list[str]:
     return out
 
 
+def _flow_with_merge(v: dict, merge_from: str | None) -> str:
+    if not merge_from:
+        return flow(v)
+    return "{" + ", ".join([f"<<: *{merge_from}"] + [f"{key_text(k)}: {flow(x)}" for k, x in v.items()]) + "}"
+
+
+def _merge_text(it) -> str:
+    refs = it["refs"]
+    return "[" + ", ".join(f"*{r}" for r in refs) + "]" if (len(refs) > 1 or it.get("as_list")) else f"*{refs[0]}"
+
+
+def _item_key(it) -> str:
+    # the merge key is the PLAIN scalar << (a quoted "<<" would be an ordinary string key)
+    return "<<" if it.get("style") == "merge" else key_text(it["key"], it.get("quote", ""))
+
+
+def _inline_value(it) -> str:
+    """Text of an item's value when it is written on the key's line."""
+    if it.get("style") == "alias":
+        return f"*{it['ref']}"
+    if it.get("style") == "merge":
+        return _merge_text(it)
+    anchor = f"&{it['anchor']} " if it.get("anchor") else ""
+    v = it["value"]
+    return anchor + (_flow_with_merge(v, it.get("merge_from")) if isinstance(v, dict) else flow(v))
+
+
 def _comment_lines(c: str, pad: str = "") -> list[str]:
     return [f"{pad}#{piece}" for piece in c.split("\n")]
 
@@ -85,6 +120,25 @@ def render(doc) -> tuple[str, dict, list[str]]:
     lines: list[str] = []
     comments: list[str] = []
     expected: dict = {}
+    anchors: dict = {}
+    merged: dict = {}
+
+    def expect(it):
+        """Record the parsed value of one top-level item (anchors / aliases / merge keys resolved)."""
+        if it.get("style") == "merge":
+            for ref in it["refs"]:
+                for mk, mv in anchors[ref].items():
+                    merged.setdefault(mk, mv)
+            return
+        if it.get("style") == "alias":
+            val = anchors[it["ref"]]
+        else:
+            val = it["value"]
+            if it.get("merge_from"):
+                val = {**anchors[it["merge_from"]], **val}
+            if it.get("anchor"):
+                anchors[it["anchor"]] = val
+        expected[it["key"]] = val
 
     def add_comment(c, pad=""):
         ls = _comment_lines(c, pad)
@@ -98,18 +152,18 @@ def render(doc) -> tuple[str, dict, list[str]]:
     items = doc["items"]
     if doc.get("doc_flow"):
         for it in items:
-            expected[it["key"]] = it["value"]
-        body = ", ".join(f"{key_text(it['key'], it.get('quote', ''))}: {flow(it['value'])}" for it in items)
+            expect(it)
+        body = ", ".join(f"{_item_key(it)}: {_inline_value(it)}" for it in items)
         lines.append("{" + body + "}")
     else:
         for n, it in enumerate(items):
-            expected[it["key"]] = it["value"]
+            expect(it)
             if n and doc.get("blank_between", True):
                 lines.append("")
             for c in it.get("before", []):
                 add_comment(c)
-            k = key_text(it["key"], it.get("quote", ""))
-            v = it["value"]
+            k = _item_key(it)
+            v = it.get("value")
             trail = it.get("trail")
             tr = f"  #{trail}" if trail else ""
             if trail:
@@ -119,11 +173,13 @@ def render(doc) -> tuple[str, dict, list[str]]:
                 lines.append(f"{k}: |+{tr}")
                 lines.extend((" " * step + ln) if ln else "" for ln in v.split("\n")[:-1])
                 continue
-            if it.get("style") == "flow" or not isinstance(v, (dict, list)) or not v:
-                lines.append(f"{k}: {flow(v)}{tr}")
+            if it.get("style") in ("flow", "alias", "merge") or not isinstance(v, (dict, list)) or not v:
+                lines.append(f"{k}: {_inline_value(it)}{tr}")
                 continue
-            lines.append(f"{k}:{tr}")
+            lines.append(f"{k}:" + (f" &{it['anchor']}" if it.get("anchor") else "") + tr)
             body = _block(v, step if isinstance(v, dict) else 2, step)
+            if it.get("merge_from") and isinstance(v, dict):
+                body.insert(0, " " * step + f"<<: *{it['merge_from']}")
             # inner comments: after the n-th top-level entry line of this section
             inner = {}
             for pos, mode, c in it.get("inner", []):
@@ -141,6 +197,8 @@ def render(doc) -> tuple[str, dict, list[str]]:
                         comments.extend(x.strip() for x in ls)
                 result.append(ln)
             lines.extend(result)
+    for mk, mv in merged.items():
+        expected.setdefault(mk, mv)  # explicit keys win over merged-in ones
     for c in doc.get("tail", []):
         add_comment(c)
     nl = "\r\n" if doc.get("crlf") else "\n"
